@@ -127,8 +127,8 @@ Definition vset_path' (m : mem) (l : list opt) (id : Z) (sl : slice) (path : lis
   match vset_path m l id sl path with None => (m, (l, -1, EFuel)) | Some r => r end.
 
 (* ResetOptionsTo: the incoming options are given by value (their bytes are
-   read before the loop: the source must not alias the receiver's buffer,
-   see notes/C15.md "aliasing misuse") *)
+   read before the loop). An input that aliases the receiver's value storage
+   is modelled in ProofsAlias.v and proved equal to this one. *)
 Fixpoint vreset_loop (ins : list opt) (m : mem) (opts : list opt) (sl : slice) (used : Z) : vres :=
   match ins with
   | [] => (m, (opts, used, ENone))
